@@ -35,7 +35,11 @@
    VIRTUAL SUPER-ROOT: [c_root c] is a node that is not content, whose successors are the roots
    and whose phase is [Waiting] from the start (ExtendedCopyGraph's closure does region.End() and
    calls copyGraph with the shared limiter and tracker for every root: exactly a parent that has
-   dispatched its successors).  Success needs every root [Done]. *)
+   dispatched its successors).  Success needs every root [Done].
+   CopySpec's own view of the same fan-out ([c_xroots c]: further roots dispatched together with
+   [c_root c], [ext = false]) is supported as well: the theorems hold for both views, and the
+   model runner evaluates every recorded ExtendedCopyGraph trace under both and requires the
+   same verdict. *)
 From Oras Require Import Base.Prelude Model.CopySpec.
 Local Open Scope nat_scope.
 
@@ -71,7 +75,8 @@ Definition ret_ok_guard (g : graph) (c : cfg) (ext : bool) (st : state) : bool :
     forallb (fun r => is_done (ph st r)) (succ' g (c_root c)) &&
     forallb (fun n => Nat.eqb n (c_root c) || is_idle_or_done (ph st n)) (seq 0 (g_n g))
   else
-    is_done (ph st (c_root c)) && forallb (fun n => is_idle_or_done (ph st n)) (seq 0 (g_n g)).
+    is_done (ph st (c_root c)) && forallb (fun n => is_idle_or_done (ph st n)) (seq 0 (g_n g))
+    && forallb (fun r => is_done (ph st r)) (c_xroots c).
 
 Definition set_ret (fs : fstate) (b : bool) : fstate :=
   let st := fb fs in
